@@ -469,6 +469,31 @@ def r17_13(prog, rep):
     rep.check(same, "R17.13", f.qualname, f.loc, "what is left after peeling is examined again for all three wrapper kinds before it is taken for the origin", "origin() peels NewType, ClassVar and alias once each, in a fixed order, and takes what is left for the origin: an alias of a NewType (`TypeAliasType('A', NewType('U', int))`) answers the NewType object, a ClassVar of a NewType or of an alias answers the wrapper beneath -- and the class-valued predicates built on origin() raise TypeError (issubclass() arg 1 must be a class)", detail="origin-wrappers-fixpoint")
 
 
+def r17_14(prog, rep):
+    """`tuple[()]` is a subscripted generic with no arguments: whether an annotation is subscripted cannot be read off the
+    emptiness of its arguments (`bool(get_args(t))`, `len(get_args(t)) > 0`, `t.__args__` as a truth value)."""
+    f = prog.functions.get(f"{C.INSP}.issubscriptedgeneric")
+    if f is None:
+        rep.undecided("R17.14", f"{C.INSP}.issubscriptedgeneric", "", "predicate not found", detail="subscripted-not-from-args")
+        return
+    tpar = ("param", f.params[0])
+    is_args = lambda y: (T.is_call_to(y, "typing.get_args", f"{C.INSP}.args") and y[2][:1] == (tpar,)) or y == ("attr", tpar, "__args__") or (T.is_call_to(y, "builtins.getattr") and y[2][:2] == (tpar, ("const", "__args__")))  # noqa: E731
+    bad = []
+    for p in P.paths_of(prog, f):
+        terms = ([p.exit[1]] if p.exit[0] == "return" else []) + [g for g, _ in p.guards()]
+        for tm in terms:
+            for x in T.walk(tm):
+                if T.is_call_to(x, "builtins.bool") and x[2] and is_args(x[2][0]):
+                    bad.append(T.show(x)[:50])
+                if x[0] == "cmp" and T.is_call_to(x[2], "builtins.len") and x[2][2] and is_args(x[2][2][0]):
+                    bad.append(T.show(x)[:50])
+                if x[0] in ("boolop", "not", "ifexp") and any(is_args(o) for o in (x[2] if x[0] == "boolop" else (x[1],))):
+                    bad.append(T.show(x)[:50])
+            if is_args(tm):
+                bad.append(T.show(tm)[:50])
+    rep.check(not bad, "R17.14", f.qualname, f.loc, "whether an annotation is subscripted is not decided by the emptiness of its arguments", f"issubscriptedgeneric answers from the emptiness of the type arguments ({sorted(set(bad))[:1]}): the empty fixed tuple `tuple[()]` / `typing.Tuple[()]` is subscripted and has none -- it answers False while typing.get_origin says tuple, and issubscriptedcollectiontype follows", detail="subscripted-not-from-args")
+
+
 def r17_9(prog, rep):
     """origin(): its body, interpreted abstractly on the catalogue, yields the class itself for concrete classes, the class
     of a subscripted generic, and the documented concrete builtin for the abstract collection types."""
@@ -590,6 +615,8 @@ def run(prog: Program, rep: Report, tier: str):
     rep.rule("R17.9", "origin() interpreted on the catalogue reproduces the documented mapping", floor=1)
     rep.rule("R17.13", "origin() peels nested wrappers (NewType, ClassVar, alias) to a fixpoint", floor=1)
     r17_13(prog, rep)
+    rep.rule("R17.14", "subscripted-ness is not read off the emptiness of the type arguments (tuple[()])", floor=1)
+    r17_14(prog, rep)
     rep.rule("R17.8", "special-form predicates are computed from the facts their contracts name", floor=15)
     rep.rule("R17.1", "GENERIC_TYPE_MAP values are concrete instantiable builtins of the key's kind", floor=18)
     rep.rule("R17.2", "typing / collections.abc spellings agree", floor=16)
